@@ -17,7 +17,7 @@ RULE = ('seeded generator: planes with amplitude/OPD each scalar or 2-D, mask No
 ASSUMPTIONS = ['a plane with scalar amplitude, array OPD and no mask has no extent and is excluded (DESIGN.md C07)',
                'segment masks of one plane are pairwise disjoint']
 PLAN = {'quick': {'gen': 8}, 'thorough': {'gen': 16, 'tests': 1, 'docs': 1}}
-REQUIRED_BUCKETS = ['plane:reused', 'wf:chain-overlap', 'amp:scalar', 'amp:array', 'opd:scalar', 'opd:array', 'mask:none', 'mask:2d', 'mask:3d',
+REQUIRED_BUCKETS = ['broadband', 'plane:reused', 'wf:chain-overlap', 'amp:scalar', 'amp:array', 'opd:scalar', 'opd:array', 'mask:none', 'mask:2d', 'mask:3d',
                     'amp:scalar+mask:array', 'wf:default', 'wf:chain', 'wf:multi-field', 'wf:overlapping-fields',
                     'plane:default', 'pixelscale:mismatch', 'insert:weight0', 'insert:negative', 'pupil:focal']
 REQUIRED_ANCHORS = ['probe:Plane.multiply', 'probe:Pupil.multiply', 'probe:Wavefront.field',
@@ -464,6 +464,24 @@ def workload(ctx, lentil):
                 _touch_views(ctx, lentil, rng, p.multiply(w0))
         except Exception as e:
             ctx.check(False, 'multiply=phasor', f'reuse|raises={type(e).__name__}', str(e), {'shape': list(shape)})
+
+    # broadband loops: the same plane objects meet wavefronts of different wavelengths one after the other (and again the
+    # first wavelength at the end); argument forms of pixelscale (float, tuple, list, ndarray)
+    for i in range(max(10, n // 8)):
+        shape = gen.rshape(rng, 4, 14)
+        A = gen.support(rng, shape)
+        forms = [2e-3, (2e-3, 2e-3), [2e-3, 2e-3], np.array([2e-3, 2e-3])]
+        kwm = {'mask': gen.partition(rng, A, 3)[0].astype(float)} if rng.random() < 0.5 else {}
+        p1 = lentil.Pupil(amplitude=gen.amplitude(rng, A), opd=gen.opd(rng, shape, 6e-7), pixelscale=forms[i % 4], focal_length=4.0, **kwm)
+        p2 = lentil.Pupil(amplitude=float(rng.uniform(0.5, 1.5)), opd=float(rng.normal() * 1e-7), focal_length=4.0)
+        wls = [float(x) for x in rng.uniform(4e-7, 1.6e-6, size=4)]
+        ctx.case({'broadband': wls, 'shape': list(shape), 'ps_form': i % 4}, ['broadband'])
+        for wl in wls + wls[:1]:
+            try:
+                w = lentil.Wavefront(wl) * p1 * p2
+                _touch_views(ctx, lentil, rng, w)
+            except Exception as e:
+                ctx.check(False, 'multiply=phasor', f'broadband|raises={type(e).__name__}', str(e), {'wl': wl})
 
     # default plane changes nothing
     for i in range(max(10, n // 6)):
